@@ -130,6 +130,10 @@ struct SetCase {
     if (unb && (n > 1 || r.coin(40))) { cut_by_box(s, name); return; }
     string tree; Sep* sp = some_sep(tree, unb || r.coin(35), unb); double eps = pick_eps(g, n);
     step(name + "*=sep/" + hex(eps) + "/" + tree); trace(g.defs());
+    // history of the separator OBJECT: it may have been used before on an i-set with other statuses (result thrown away);
+    // the contraction of a plain set must not depend on it
+    if (r.coin(30)) { IntervalVector tb = bounded_box(g, n); SetInterval tmp(tb, MAYBE); int j = r.below(3);
+      try { sp->contract(tmp, std::max(eps, 0.25), j == 0 ? NO : (j == 1 ? MAYBE : NO), j == 0 ? YES : (j == 1 ? YES : MAYBE)); } catch (...) {} }
     sp->contract(s, eps);
   }
   Set* init_set(const string& name) {
